@@ -102,6 +102,23 @@ theorem reconstructs (st0 : St) (h0 : Start st0) (ops : List Op) (ha : Addr32 op
     simp only [List.getElem_map]
     exact runBlks_image ops st0 hI0 ha hnp i (by simpa using h1) h2 h3 _ x
 
+/-- C16.c'  **No address twice.** The address ranges `[target, target + payload size)` of the blocks that one
+operation appends are pairwise disjoint (a `write` appends at most one block; the blocks of a `write_all`
+are consecutive). -/
+theorem no_dup_addr (st : St) (hI : Inv st) (op : Op) :
+    List.Pairwise (fun b c : Blk => b.addr + b.blen ≤ c.addr) (stepBlks st op) := by
+  cases op with
+  | write a d nf =>
+    simp only [stepBlks]
+    split
+    · unfold writeBlks; split <;> simp
+    · simp
+  | writeAll a d nf =>
+    simp only [stepBlks]
+    split
+    · exact allBlks_disjoint st.cfg hI.valid nf _ _ _ _
+    · simp
+
 /-- C16.d  **Rejections of `write`.** From any reachable state (`Inv`), `write` returns an error exactly when
 the block is non-empty and (its length is not a multiple of the alignment, or it is longer than the payload
 size, or the destination has no room for 512 more bytes); then the state — in particular the output — is
